@@ -537,3 +537,13 @@ m('c09-rem-modpow-shortcut', ['C09'], 'Rem<&BigDecimal> for &BigDecimal', [
                 (num * ten_pow) % den
             }""")],
   'modular-exponentiation shortcut: modpow floors, so negative divisors give a wrong remainder')
+m('c06-handwritten-mode-table', ['C06'], 'MODE-DISPATCH', [
+  ('src/lib.rs', """                        let rounded_digit = mode.round_pair(sign, (0, 0), false);
+                        BigInt::new(sign, vec![rounded_digit as u32])""", """                        let rounded_digit = match mode {
+                            RoundingMode::Up => 1,
+                            RoundingMode::Ceiling => if sign == Sign::Minus { 0 } else { 1 },
+                            RoundingMode::Floor => if sign == Sign::Plus { 0 } else { 1 },
+                            _ => 0u8,
+                        };
+                        BigInt::new(sign, vec![rounded_digit as u32])""")],
+  'a correct-looking hand-written mode table in one branch of with_scale_round: any such table escapes the round_pair check')
